@@ -311,15 +311,16 @@ class spec_property(_spec_property_base):
         had_value = (
             self.overridable or self.cache
         ) and self.attr_name in instance.__dict__
-        if had_value:
-            del instance.__dict__[self.attr_name]
-        if self.fdel is None:
-            if had_value:
-                return
+        if self.fdel is None and not had_value:
             raise AttributeError(
                 f"Property override for `{self._qualified_name}` has no cache or override to delete."
             )
-        self.fdel(instance)
+        if self.fdel is not None:
+            # Run the user's deleter first: if it raises, the deletion has
+            # failed and nothing is discarded.
+            self.fdel(instance)
+        if had_value:
+            instance.__dict__.pop(self.attr_name, None)
 
     # Let spec-class know to invalidate any cache based on `.invalidate_by`
     @property
